@@ -662,7 +662,7 @@ def get_sqrtprec_from_sqrtprec(dim, sqrtprec, sparse_flag):
         raise ValueError("sqrtprec must be square")     
 
     # sqrtprec is sparse diagonal
-    elif spa.isspmatrix_dia(sqrtprec):
+    elif spa.isspmatrix_dia(sqrtprec) and list(sqrtprec.offsets) == [0]: # (DIA format holding the main diagonal only)
         logdet = np.sum(-np.log(sqrtprec.data**2))
         rank = dim
 
